@@ -12,14 +12,16 @@ RULE = ("grammar-generated task programs (profiles %s; trees and DAGs of tasks, 
         "and raising flushes, nested yield structures, errors, try/except, synchronous re-entry, contexts) interpreted on "
         "the real scheduler and replayed in the Lean machine with the implementation's flush choices; non-trivial = at "
         "least 2 tasks and 1 scheduler flush; distinct by hash of (configuration, programs)" % (", ".join(p for p, _ in MIX)))
-TRUSTED = cc.TRUSTED_CORE
+RULE += cc.ASYNCIO_RULE
+TRUSTED = cc.TRUSTED_CORE + cc.TRUSTED_ASYNCIO
 ASSUMPTIONS = cc.ASSUMPTIONS_CORE
 
 
 def extra(tier, rng):
     import coregen
     return [coregen.override_family(rng) for _ in range(150 if tier == "quick" else 3000)] + \
-        [coregen.shared_override_family(rng) for _ in range(100 if tier == "quick" else 2000)]
+        [coregen.shared_override_family(rng) for _ in range(100 if tier == "quick" else 2000)] + \
+        cc.asyncio_cases(PID, tier, cc.fork(rng, "aio"))
 
 
 def plan(tier, seed):
